@@ -32,6 +32,9 @@ class BlockLinearOperator(LinearOperator):
             The dimension that specifies blocks.
     """
 
+    # Whether row index i * num_blocks + b addresses row i of block b (interleaved layout)
+    _interleaved_blocks = False
+
     def __init__(self, base_linear_op, block_dim=-3):
         if base_linear_op.dim() < 3:
             raise RuntimeError(
@@ -76,15 +79,23 @@ class BlockLinearOperator(LinearOperator):
             # It's too complicated to deal with tensor indices in this case - we'll use the super method
             return super()._getitem(row_index, col_index, *batch_indices)
 
+        # The shortcut below is only valid when consecutive rows/columns cycle through the blocks
+        # (i.e. for the interleaved layout): then an aligned slice selects the same rows/columns of every block
+        if not self._interleaved_blocks:
+            return super()._getitem(row_index, col_index, *batch_indices)
+
         # Now we know that row_index and col_index
         num_blocks = self.num_blocks
         num_rows, num_cols = self.matrix_shape
-        row_start, row_end, row_step = row_index.start or 0, row_index.stop or num_rows, row_index.step
-        col_start, col_end, col_step = col_index.start or 0, col_index.stop or num_cols, col_index.step
+        row_step, col_step = row_index.step, col_index.step
 
         # If we have a step, it's too complicated - go with the base case
         if row_step is not None or col_step is not None:
             return super()._getitem(row_index, col_index, *batch_indices)
+
+        # Resolve None / negative / over-long bounds the way python slicing does
+        row_start, row_end, _ = row_index.indices(num_rows)
+        col_start, col_end, _ = col_index.indices(num_cols)
 
         # Let's make sure that the slice dimensions perfectly correspond with the number of
         # outputs per input that we have
@@ -97,7 +108,8 @@ class BlockLinearOperator(LinearOperator):
         col_index = slice(col_start // num_blocks, col_end // num_blocks, None)
 
         # Now we can try the super call!
-        new_base_linear_op = self.base_linear_op._getitem(row_index, col_index, *batch_indices)
+        # (the block dimension is the last batch dimension of the base operator, and is kept whole)
+        new_base_linear_op = self.base_linear_op._getitem(row_index, col_index, *batch_indices, _noop_index)
 
         # Now construct a kernel with those indices
         return self.__class__(new_base_linear_op, block_dim=-3)
